@@ -393,3 +393,11 @@ def rules(ctx: Ctx) -> None:
                 ctx.ob("R01.9", f"node-attributes-set-for-named-nodes:{f.owner}", named, loc(f.mod, k),
                        f"`{u(k)[:70]}`: the values must be a mapping node -> value; a scalar is applied to every node of the graph")
     ctx.floor("set_node_attributes call sites", n_sna, 3)
+
+    # ---- R01.10 / R01.11 shared clauses: each part of a dotted name is normalised on its own (= R07.3: a name mangled by joining raw parts is a
+    # table the statement does not read); whether an undotted name may denote a CTE is decided on the text (= R08.3: decided on the schema
+    # object instead, a configured default schema turns every CTE name into a reported table)
+    from .common import import_rules as _imp01
+
+    _imp01(ctx, "C07", {"R07.3": "R01.10"})
+    _imp01(ctx, "C08", {"R08.3": "R01.11"})
